@@ -3,7 +3,7 @@
    itself parses back to the value, every tag through the tokenizer and its own parser). *)
 From hls Require Import Base Float Lex Kinds Types Tags Line Keys Media Master.
 From hls.Generated Require Import Tables.
-From hls.Proofs Require Import C04 Values Lexical TextLines AttrText TagText TagTextMedia TagTextVariant MasterText ParsedWf.
+From hls.Proofs Require Import C04 Values Lexical TextLines AttrText TagText TagTextMedia TagTextVariant MasterText ParsedWf FloatAll FloatFixed3.
 Open Scope N_scope.
 
 Theorem C04_items_roundtrip : forall p, validate_master p = true ->
@@ -130,6 +130,16 @@ Check C04_roundtrip : forall s p, parse_master s = Ok p -> floats_master p = tru
 Print Assumptions C04_roundtrip.
 
 (* the hypotheses are met by a parsed playlist with every kind of tag (floats included) *)
+(* the two float hypotheses inside `floats_master` are theorems on the values the RFC lets a playlist carry: FRAME-RATE values that
+   are numbers with at most three decimals below 8192 (read as the nearest f32, written with {:.3}), and every TIME-OFFSET the
+   reader accepts *)
+Theorem C04_float_hypotheses : (forall V : N, V < 8192000 -> ufloat_rt (dec_to_f b32 (DNum false (Z.of_N V) (-3))) = true)
+  /\ (forall s x, parse_float s = Ok x -> float_rt x = true).
+Proof. exact (conj ufloat_rt_3dec (fun s x H => proj1 (proj2 (parsed_float_roundtrip s x H)))). Qed.
+Check C04_float_hypotheses : (forall V : N, V < 8192000 -> ufloat_rt (dec_to_f b32 (DNum false (Z.of_N V) (-3))) = true)
+  /\ (forall s x, parse_float s = Ok x -> float_rt x = true).
+Print Assumptions C04_float_hypotheses.
+
 Example C04_text_example :
   match parse_master (lit "#EXTM3U
 #EXT-X-MEDIA:TYPE=AUDIO,GROUP-ID=""a"",NAME=""n"",LANGUAGE=""en"",DEFAULT=YES,AUTOSELECT=YES,CHANNELS=""2/JOC""
